@@ -236,6 +236,8 @@ class PreemptivePriorities(O.Monitor):
 
         def option_of(nid):
             nd = self.spec["nodes"][nid - 1]
+            if nd["servers"].get("preemption") and nd.get("prio_preempt"):
+                return (nd["prio_preempt"], nd["servers"]["preemption"])
             if nd["servers"].get("preemption"):
                 return None
             return nd.get("prio_preempt") or None
